@@ -440,7 +440,7 @@ class SchemaValidator:
             for arg in object_field.arguments:
                 interface_arg = field.argument_map.get(arg.name, None)
                 if interface_arg is None:
-                    if isinstance(arg.type, NonNullType):
+                    if arg.required:
                         self.add_error(
                             'Object field argument "%s.%s" is of required type '
                             '"%s" but is not provided by interface field "%s"'
